@@ -9,7 +9,9 @@ import json, os, shutil, subprocess, sys
 
 pid = sys.argv[1]
 wt = f"/tmp/wt/{pid}"
-out = f"{wt}/_out"
+ROUND2 = "--round2" in sys.argv
+out = f"{wt}/_out2" if ROUND2 else f"{wt}/_out"
+PFX = "n" if ROUND2 else "m"
 env = dict(os.environ, PYTHONPATH=f"{wt}/src", PYTHONDONTWRITEBYTECODE="1")
 PY = "/venv/bin/python"
 
@@ -25,11 +27,11 @@ def demo(path):
 
 sh("git checkout -- src")
 for k in (1, 2, 3):
-    d = f"{out}/m{k}.diff"
+    d = f"{out}/{PFX}{k}.diff"
     if not os.path.exists(d):
         continue
     ran = []
-    rc0, o0 = demo(f"{out}/m{k}_demo.py")
+    rc0, o0 = demo(f"{out}/{PFX}{k}_demo.py")
     ran.append(f"demo on clean tree: exit {rc0}")
     a = sh(f"git apply {d}")
     if a.returncode != 0:
@@ -37,19 +39,19 @@ for k in (1, 2, 3):
     changed = sh("git diff --stat").stdout.strip().splitlines()
     t = sh(f"{PY} -m pytest -q -p no:cacheprovider -x 2>&1 | tail -1", timeout=900)
     ran.append("suite with change: " + t.stdout.strip())
-    rc1, o1 = demo(f"{out}/m{k}_demo.py")
+    rc1, o1 = demo(f"{out}/{PFX}{k}_demo.py")
     ran.append(f"demo with change: exit {rc1}")
     sh("git checkout -- src")
     ok = rc0 == 0 and rc1 != 0 and "911 passed" in t.stdout
     print(pid, k, "OK" if ok else "REJECT", ran, "\n   ", o1.strip().splitlines()[-1:] if o1.strip() else "")
     if not ok:
         continue
-    dst = f"/verif/seeded/{pid}-m{k}"
+    dst = f"/verif/seeded/{pid}-{PFX}{k}"
     os.makedirs(dst, exist_ok=True)
     shutil.copy(d, f"{dst}/patch.diff")
-    shutil.copy(f"{out}/m{k}_demo.py", f"{dst}/demo.py")
+    shutil.copy(f"{out}/{PFX}{k}_demo.py", f"{dst}/demo.py")
     try:
-        meta = json.load(open(f"{out}/m{k}_meta.json"))
+        meta = json.load(open(f"{out}/{PFX}{k}_meta.json"))
     except Exception:
         meta = {}
     meta.update(property=pid, confirmed=ran, detected_by=None)
